@@ -183,7 +183,7 @@ def worker(w, q, results, total):
             open(p, "w").write("\n".join(lines))
             t0 = time.time()
             try:
-                st = run_tests(scratch, w)
+                st = mu["status"] if mu.get("recheck") else run_tests(scratch, w)
                 mu["status"] = st
                 if st in ("tests-pass", "test-timeout"):
                     fired = run_checks(scratch, w)
@@ -202,6 +202,7 @@ def worker(w, q, results, total):
 def main(argv):
     jobs, limit, files, out, stride, offset = 6, None, DEFAULT_FILES, os.path.join(VERIF, "sweep", "sweep.json"), 1, 0
     ops = None
+    recheck = False
     i = 0
     while i < len(argv):
         a = argv[i]
@@ -217,6 +218,8 @@ def main(argv):
             stride = int(argv[i + 1]); i += 2
         elif a == "--offset":
             offset = int(argv[i + 1]); i += 2
+        elif a == "--recheck":
+            recheck = True; i += 1
         elif a == "--ops":
             ops = argv[i + 1].split(","); i += 2
         elif a == "--list":
@@ -238,6 +241,15 @@ def main(argv):
         for m in json.load(open(out)):
             done[m["id"]] = m
     todo = [m for m in muts if m["id"] not in done]
+    if recheck:
+        # re-run only the checks (with today's rules) on the mutants the tests could not kill
+        todo = []
+        for m in muts:
+            d0 = done.get(m["id"])
+            if d0 and d0["status"] in ("tests-pass", "test-timeout"):
+                m2 = dict(m, status=d0["status"], recheck=True)
+                todo.append(m2)
+                del done[m["id"]]
     if limit:
         todo = todo[:limit]
     print("mutants: %d generated, %d already done, %d to run" % (len(muts), len(done), len(todo)))
